@@ -944,7 +944,7 @@ func (x *Explorer) Eval(e ast.Expr, st *State) tri {
 			if l == yes && r == yes {
 				return yes
 			}
-			return unknown
+			return x.composite(e, st)
 		case token.LOR:
 			l, r := x.Eval(b.X, st), x.Eval(b.Y, st)
 			if l == yes || r == yes {
@@ -953,7 +953,7 @@ func (x *Explorer) Eval(e ast.Expr, st *State) tri {
 			if l == no && r == no {
 				return no
 			}
-			return unknown
+			return x.composite(e, st)
 		}
 		if reg, c, negated, ok := x.constEq(e); ok {
 			if cur, has := st.Regs[reg]; has {
@@ -1532,3 +1532,14 @@ func (x *Explorer) SetEq(e ast.Expr, exact string, st *State) bool {
 
 // Key renders a pure expression the way fact keys do (exported for rules that match facts by operand).
 func (x *Explorer) Key(e ast.Expr) (string, bool) { return x.key(Unparen(e)) }
+
+// composite looks up the fact recorded for a whole && / || expression whose operands are not known
+// individually (Assume stores it under the rendering of the expression).
+func (x *Explorer) composite(e ast.Expr, st *State) tri {
+	if k, ok := x.key(e); ok {
+		if v, has := st.Facts[k]; has {
+			return fromBool(v)
+		}
+	}
+	return unknown
+}
